@@ -94,3 +94,70 @@ def Holds {σ : Type} (M : Machine DirIn σ DirOut) (c : Cfg) (rd shared : Bool)
     EnvOK c g x → RouteOK c shared g x (M.out s x) ∧ Holds M c rd shared (M.next s x) (fifoNext c rd g x (M.out s x)) xs
 
 end Litex.Axi.Lite
+
+namespace Litex.Axi.Lite
+open Litex
+
+/-- Machine state and scoreboard after a run. -/
+def runSB {σ : Type} (M : Machine DirIn σ DirOut) (c : Cfg) (rd : Bool) : σ → Fifo → List DirIn → σ × Fifo
+  | s, g, [] => (s, g)
+  | s, g, x :: xs => runSB M c rd (M.next s x) (fifoNext c rd g x (M.out s x)) xs
+
+/-- The environment assumptions hold in every cycle of the run. -/
+def EnvAll {σ : Type} (M : Machine DirIn σ DirOut) (c : Cfg) (rd : Bool) : σ → Fifo → List DirIn → Prop
+  | _, _, [] => True
+  | s, g, x :: xs => EnvOK c g x ∧ EnvAll M c rd (M.next s x) (fifoNext c rd g x (M.out s x)) xs
+
+/-- Number of unanswered requests on the scoreboard (all slaves). -/
+def Fifo.total (g : Fifo) (m : Nat) : Nat := ((List.range m).map fun j => (g j).length).sum
+
+/-- Number of unanswered requests of master `i` on the scoreboard. -/
+def Fifo.ofMaster (g : Fifo) (m i : Nat) : Nat := ((List.range m).map fun j => (g j).count i).sum
+
+/-! ### The request counter against its specification -/
+
+/-- The counter register over a sequence of `(request, response)` events. -/
+def ctrRun (c : Nat) : List (Bool × Bool) → Nat
+  | [] => c
+  | (rq, rs) :: es => ctrRun (ctrNext c rq rs) es
+
+/-- Accepted requests minus delivered responses (starting from `o`), exact arithmetic. -/
+def outstandingSpec (o : Nat) : List (Bool × Bool) → Nat
+  | [] => o
+  | (rq, rs) :: es => outstandingSpec (o + (if rq then 1 else 0) - (if rs then 1 else 0)) es
+
+/-- Legal event sequences: a response leaves only while something is outstanding (or together with a request),
+    and at most 255 requests are outstanding. -/
+def CtrLegal (o : Nat) : List (Bool × Bool) → Prop
+  | [] => True
+  | (rq, rs) :: es =>
+    (rs = true → rq = true ∨ 0 < o) ∧ (rq = true → rs = true ∨ o < maxReq - 1) ∧
+    CtrLegal (o + (if rq then 1 else 0) - (if rs then 1 else 0)) es
+
+end Litex.Axi.Lite
+
+namespace Litex.Axi.Lite
+open Litex
+
+/-- Shared interconnect: number of cycles of a run in which the bus could be handed over (`rr.ce`) while master `i`
+    is not the owner. -/
+def Shared.handovers (c : Cfg) (rd : Bool) (i : Nat) : ShDir → List DirIn → Nat
+  | _, [] => 0
+  | s, x :: xs =>
+    (if Arb.ce s.arb x.ms (Shared.busSM c rd s x) = true ∧ s.arb.grant ≠ i then 1 else 0) +
+      Shared.handovers c rd i (Shared.next c rd s x) xs
+
+/-- Crossbar: the same for the arbiter in front of slave `j`. -/
+def Crossbar.handovers (c : Cfg) (rd : Bool) (i j : Nat) : XbDir → List DirIn → Nat
+  | _, [] => 0
+  | s, x :: xs =>
+    (if Arb.ce (Crossbar.arb s j) (fun k => Crossbar.accMS c rd s x k j) (x.ss j) = true ∧
+        (Crossbar.arb s j).grant ≠ i then 1 else 0) +
+      Crossbar.handovers c rd i j (Crossbar.next c rd s x) xs
+
+/-- Crossbar: master `i` presents an address to slave `j` (through its decoder) in every cycle of the run. -/
+def Crossbar.Requests (c : Cfg) (rd : Bool) (i j : Nat) : XbDir → List DirIn → Prop
+  | _, [] => True
+  | s, x :: xs => (Crossbar.accMS c rd s x i j).aValid = true ∧ Crossbar.Requests c rd i j (Crossbar.next c rd s x) xs
+
+end Litex.Axi.Lite
